@@ -173,6 +173,24 @@ where
             ));
         }
 
+        // The extended domain (which accommodates the quotient polynomial) must
+        // also be supported by the field.
+        let quotient_poly_degree = (cs.degree() as u64).saturating_sub(1);
+        let mut extended_k = k as u32;
+        while (1u128 << extended_k) < ((1u128 << k) * quotient_poly_degree as u128) {
+            extended_k += 1;
+        }
+        if extended_k > F::S {
+            return Err(io::Error::new(
+                io::ErrorKind::InvalidData,
+                format!(
+                    "circuit size value (k): {} is too large for a circuit of degree {}",
+                    k,
+                    cs.degree()
+                ),
+            ));
+        }
+
         let domain = EvaluationDomain::new(cs.degree() as u32, k.into());
 
         let mut num_fixed_columns = [0u8; 4];
